@@ -290,11 +290,16 @@ def err_to_spec(e):
     return [k]
 
 
+SV_COV_PREDEFINED = {"SV_COV_START", "SV_COV_STOP", "SV_COV_RESET", "SV_COV_CHECK", "SV_COV_MODULE", "SV_COV_HIER", "SV_COV_ASSERTION",
+                     "SV_COV_FSM_STATE", "SV_COV_STATEMENT", "SV_COV_TOGGLE", "SV_COV_OVERFLOW", "SV_COV_ERROR", "SV_COV_NOCOV", "SV_COV_OK",
+                     "SV_COV_PARTIAL"}
+
+
 def defs_view(defs):
     """returned define table as the property states it (SV_COV_* left aside, texts trimmed)"""
     out = []
     for d in defs:
-        if d["name"].startswith("SV_COV_"):
+        if d["name"] in SV_COV_PREDEFINED:       # the fifteen names of IEEE 1800-2017 40.5.1, exactly: SV_COV_LEVEL is a user's macro
             continue
         if d.get("none"):
             out.append({"n": d["name"], "none": True, "a": [], "b": []})
